@@ -124,7 +124,9 @@ def gates(prog: Program, rep) -> None:
         si = f2.stmt_of(node)
         facts = si.facts
         if fi is ct:
-            ok = ("<=", f"{itp}.total_res", "self.params.opt_tol") in facts and isinstance(si.stmt, ast.Return)
+            from .common import value_sites
+            is_site = isinstance(si.stmt, ast.Return) or any(st_ is si.stmt for st_, _ in value_sites(ct, ff))
+            ok = ("<=", f"{itp}.total_res", "self.params.opt_tol") in facts and is_site
             rep.check(ok, "optimal-gate", fi.qualname, short(si.stmt), "`return Optimal` is dominated by iterate.total_res <= params.opt_tol", fi.loc(node))
         elif fi.qualname == "pygradflow.integration.integration_solver.IntegrationSolver.solve":
             g1 = any(f[0] == "<=" and f[2] == "self.params.opt_tol" and _is_restricted_residuum(f[1]) for f in facts)
